@@ -96,6 +96,10 @@ class Builder:
                  ("message", 2 if main and not self.msg_used and not self.no_cg else 0),
                  ("selfdestruct", 2 if main and not self.in_rep else 0),
                  ("nested", 4 if main and not self.in_rep else 0),
+                 # (`...` spreads are driven by the boundary cases only: on the unchanged driver an error raised AT the instruction that
+                 #  consumes the spread count leaves num_varargs set - open known finding C05-num-varargs - and a random program that
+                 #  catches such an error and goes on would run with a corrupted argument count)
+                 ("spreadlocal", 0), ("spreadefun", 0), ("spreadbad", 0),
                  ("catch", 7), ("raise", 3), ("throw", 2), ("safe", 3 if main and not self.in_safe else 0), ("setcg", 2 if main and self.use_setcg and not self.no_cg else 0),
                  ("install", 2 if main and not self.use_setcg else 0), ("installbad", 2 if main and not self.use_setcg else 0), ("load", 2 if main and not self.in_rep else 0),
                  ("clone", 2 if main else 0),
@@ -226,6 +230,29 @@ class Builder:
             self.prep += pr
             stmts += st
             ops.append(op)
+        elif k == "spreadlocal":
+            # a `...` spread into a local function: F_EXPAND_VARARGS adds to num_varargs, the call instruction consumes it
+            b, o = self.sub(fctx, depth)
+            f = self.fn(fctx, b, params="int x, int y, int z")
+            stmts.append("a = ({ 1, 2 }); %s (0, a...);" % f)
+            ops.append("(call local %s 3 3 %s)" % (t, " ".join(o)))
+        elif k == "spreadefun":
+            # … into a varargs efun that completes
+            i = self.fresh()
+            stmts.append('a = ({ 1, 2 }); VL ("say s%d-" + sprintf ("%%d%%d", a...));' % i)
+            ops.append("(say s%d-12)" % i)
+        elif k == "spreadbad":
+            # … into a varargs efun whose FIXED argument fails the type check (raised by the instruction itself, after the
+            # spread has been counted): the count must not survive the error
+            i = self.fresh()
+            which = rng.choice(["call_other", "sprintf"])
+            if which == "call_other":
+                stmts.append('a = ({ 1, 2, 3 }); call_other (0, "f%d", a...);' % i)
+                ops.append("(raisemsg *Bad argument 1 to call_other(), Expected: string or array or object Got: 0.)")
+            else:
+                stmts.append('a = ({ 1, 2, 3 }); s = sprintf (0, a...);')
+                ops.append("(raisemsg *Bad argument 1 to sprintf(), Expected: string Got: 0.)")
+            return True
         elif k == "selfdestruct":
             # an object destructs itself and goes on executing: the frames that are unwound (or returned through) belong to a
             # destructed object
@@ -1267,6 +1294,23 @@ class C05(Prop):
                     uid += 1
                     st, op, fns, gl, pr = nested_efun(uid, outer, inner, ib, iops)
                     B.append(fixed_case("b-nested-%s-in-%s-%s" % (inner, outer, how), " ".join(st), op, fns=gl + fns, prep=" ".join(pr)))
+        # `...` spreads: the interpreter's spread counter (num_varargs) after an error raised by the type check of the receiving
+        # efun, after an error in a LATER argument, in a local call; caught and uncaught
+        spreads = [("efun-typeerr", 'a = ({ 1, 2, 3 }); call_other (0, "nofn", a...);',
+                    "(spread 3) (consume) (craise Bad argument 1 to call_other<>, Expected: string or array or object Got: 0.)"),
+                   ("sprintf-typeerr", 'a = ({ 1, 2, 3 }); s = sprintf (0, a...);',
+                    "(spread 3) (consume) (craise Bad argument 1 to sprintf<>, Expected: string Got: 0.)"),
+                   ("efun-ok", 'a = ({ 1, 2 }); VL ("say x-" + sprintf ("%d%d", a...));', "(spread 2) (consume) (say x-12)"),
+                   # an error raised by a LATER argument (the compiler expands the spread after all arguments are pushed)
+                   ("later-arg-error", 'a = ({ 1, 2, 3 }); s = sprintf ("%d", a..., a[9]);', "(raisemsg *Array index out of bounds.)")]
+        for name, stmt, sops in spreads:
+            for outer in (False, True):
+                B.append(fixed_case("b-spread-%s%s" % (name, "-caught" if outer else ""),
+                                    (CATCHSTMT % "sg ()") if outer else "sg ();",
+                                    ("(catch (call local t 0 0 %s)) (saycatch)" % sops) if outer else "(call local t 0 0 %s)" % sops,
+                                    fns=['void sf (int x, int y, int z) { error ("boom1\\n"); }',
+                                         'void sk (int x, int y, int z) { VL ("say in-sk"); }',
+                                         "void sg () { %s %s }" % (DECL, stmt)]))
         # last_verb (query_verb()): an error in a verb function must not leave it set after the command
         for name, stmt, bops in (("say", 'VL ("say x");', "(say x)"), ("raise", 'error ("boom1\\n");', "(raise boom1)"),
                                  ("throw", 'throw ("t1");', "(throw t1)")):
@@ -1309,7 +1353,7 @@ class C05(Prop):
 
     # ---- oracle self-test: the string judge must reject hand-made bad traces (one per clause) ----
     def extra_checks(self, ctx, tier, rng):
-        snap = "sp=-1 csp=-1 cg=u1 co=0 po=0 prog=0 ct=0 fp=-1 pc=null fio=0 vio=0 ctx=0 ld=0 rd=0 cgs=0 qv=0 mn=ok sn=ok"
+        snap = "sp=-1 csp=-1 cg=u1 co=0 po=0 prog=0 ct=0 fp=-1 pc=null fio=0 vio=0 ctx=0 ld=0 rd=0 cgs=0 qv=0 nva=0 mn=ok sn=ok"
         probe = "caught *probe-err ; probe lit=2 lc=3 ve=5 tp=u1 po=0 d=0 l=0 a=3,4 e=*probe-err  co=42 side in=0 hb=0"
         head = ["base " + snap, "probe0 " + probe]
         hb1 = probe.replace("hb=0", "hb=1")     # a heart-beat case: the heart beat of t is on before every evaluation
@@ -1331,6 +1375,7 @@ class C05(Prop):
             ("mn", [out(["caught *x", "catch *x", "done 1"], snap.replace("mn=ok", "mn=blank"))], "restore fault mn"),
             ("sn", [out(["err *x", "fault-top"], snap.replace("sn=ok", "sn=blank"))], "restore fault sn"),
             ("probe", [out(["done 1"], pr=probe.replace("a=3,4", "a=3"))], "probe fault differs"),
+            ("nva", [out(["err *Bad argument 1 to call_other()", "fault-top"], snap.replace("nva=0", "nva=2"))], "restore fault nva before=0 after=2 (raised)"),
             ("probe-spread", [out(["err *x", "fault-top"], pr=probe.replace("lit=2", "lit=4"))], "probe fault differs"),
             ("probe-destruct", [out(["done 1"], pr=probe.replace("d=0", "d=*Only this_object() can be destructed"))], "probe fault differs"),
             ("half-install", [out(["caught nf", "catch nf", "done 1"], pr=probe.replace("in=0", "in=1"))], "half-install"),
